@@ -265,6 +265,20 @@ fn inject(kind: &str, args: &[OsString]) -> ! {
                 out_exit(&so[..cut], b"error: git died of signal 13\n", 141)
             }
         }
+        // valid but unusual: the right answer in a spelling git is free to use
+        "valid_crlf" | "valid_bom" | "valid_dup_lines" | "valid_lead_space" | "valid_trailing_spaces" | "valid_no_final_newline" => {
+            let (so, se, code) = run_real(args);
+            let text = String::from_utf8_lossy(&so).to_string();
+            let out: Vec<u8> = match kind {
+                "valid_crlf" => text.replace('\n', "\r\n").into_bytes(),
+                "valid_bom" => [b"\xef\xbb\xbf".to_vec(), so.clone()].concat(),
+                "valid_dup_lines" => text.lines().flat_map(|l| [l, l]).collect::<Vec<_>>().join("\n").into_bytes(),
+                "valid_lead_space" => text.lines().map(|l| format!("  {l}")).collect::<Vec<_>>().join("\n").into_bytes(),
+                "valid_trailing_spaces" => text.lines().map(|l| format!("{l}  \t")).collect::<Vec<_>>().join("\n").into_bytes(),
+                _ => text.trim_end_matches('\n').as_bytes().to_vec(),
+            };
+            out_exit(&out, &se, code)
+        }
         "junk_before" => {
             let (so, se, code) = run_real(args);
             let mut o = b"hint: junk line \xe2\x98\x83 before\n".to_vec();
